@@ -1246,6 +1246,14 @@ fn run_consumer(sh: &Shared, tid: usize, first: RxH, first_id: u32, drainer: boo
       }
     }
   }
+  // After Disconnected nothing may arrive any more: probe twice (a value here is rule D2).
+  if drainer && !panicked && !fl.oneshot() && slots[0].disconnected && slots[0].h.is_some() && !slots[0].closed {
+    for _ in 0..2 {
+      if do_recv(log, t16, &mut slots[0], COp::TryRecv, &mut rng, false, 1) == Out::Panicked {
+        break;
+      }
+    }
+  }
   for s in slots.iter_mut() {
     if s.h.is_some() {
       drop_rx(log, t16, s);
